@@ -89,7 +89,13 @@ def gen(seed, n, mods_p=0.0):
                     cases.append(c)
     for _ in range(n):
         doc = g.document(4, 4)
+        if g.r.random() < 0.25:
+            doc = g.share(doc)      # the same container object at several positions
         pt = pg.path(doc, mods_p=mods_p)
+        if g.r.random() < 0.08:
+            doc, pt = pg.shared_doc_and_path(mods_p=mods_p)
+        elif g.r.random() < 0.06:
+            doc, pt = pg.mixed_doc_and_path()
         entry = g.r.choice(ENTRIES)
         if entry == "data_get_parts" and pt.mods:
             entry = "path_raw"
